@@ -94,8 +94,15 @@ def push_cases(rec, graph):
         st, idx = enc_store(graph, order)
         names = {n: i for i, n in enumerate(sorted(set(local) | set(rb) | set(ra)))}
         if op['kind'] == 'push_all':
-            req = 'pushall %s %s %s %d' % (st, enc_refs(rb, names, idx), enc_refs(local, names, idx),
-                                           1 if t['prune'] else 0)
+            if t.get('uses_prune'):
+                out.append(('pushall - - - -', 'USES --prune (deletes every remote branch absent locally)',
+                            {'kind': 'push_all', 'detail': t.get('cmd')}))
+                continue
+            deleted = [names[n] for n in t.get('deleted', []) if n in names]
+            if len(deleted) != len(t.get('deleted', [])):
+                continue
+            req = 'pushall %s %s %s %s' % (st, enc_refs(rb, names, idx), enc_refs(local, names, idx),
+                                           ','.join(str(d) for d in deleted) or '-')
             exp = ('R ' + enc_refs(ra, names, idx)) if op.get('ok') else 'REJECT'
         else:
             pushed = [n.lstrip(':') for n in t['names']]
